@@ -130,6 +130,8 @@ bool FilePersister::initialise(const f8String& dbDir, const f8String& dbFname, b
 
 			if (iprec._seq == 0)
 			{
+				if (iprec._prec._offset == 0 && iprec._prec._size == 0) // slot reserved for the control record, never written
+					continue;
 				glout_info << iprec;
 			}
 
@@ -258,10 +260,20 @@ bool FilePersister::put(const unsigned seqnum, const f8String& what)
 		glout_error << "Error: seqnum " << seqnum << " already persisted in: " << _dbIname;
 		return false;
 	}
-	if (lseek(_iod, 0, SEEK_END) < 0)
+	off_t ioffset;
+	if ((ioffset = lseek(_iod, 0, SEEK_END)) < 0)
 	{
 		glout_error << "Error: could not seek to index end for seqnum persitence: " << _dbIname;
 		return false;
+	}
+	if (ioffset == 0)	// the first index slot belongs to the control record: reserve it
+	{
+		IPrec reserved(0, 0, 0);
+		if (write (_iod, static_cast<void *>(&reserved), sizeof(IPrec)) != sizeof(IPrec))
+		{
+			glout_error << "Error: could not reserve control record in: " << _dbIname;
+			return false;
+		}
 	}
 	off_t offset;
 	if ((offset = lseek(_fod, 0, SEEK_END)) < 0)
